@@ -165,6 +165,8 @@ pub enum Ret {
     Unit,
     Bool(bool),
     Err,
+    /// model side only: the property does not fix the flag of this call
+    AnyBool,
 }
 
 // ------------------------------------------------------------------------------------------
@@ -279,7 +281,7 @@ impl Harness {
             }
         };
         let r_mod = self.apply_model(&mut model, a, &imp, faults);
-        if r_imp != r_mod {
+        if r_imp != r_mod && !(r_mod == Ret::AnyBool && matches!(r_imp, Ret::Bool(_))) {
             fault(faults, "c10.result", format!("{}: return value differs from the model", a.family()), format!("{:?}", r_mod), format!("{:?}", r_imp));
         }
         if r_imp == Ret::Err && imp != st.imp {
@@ -333,7 +335,7 @@ impl Harness {
                     mx.id.maximize();
                     let b2 = mx.id.minimize();
                     let changed = r_imp == Ret::Bool(true);
-                    if b2 != changed || (changed && mx != imp) {
+                    if (b2 != changed || (changed && mx != imp)) && mx != imp {
                         fault(faults, "c08.min_max", "minimize(maximize(x)) differs from minimize(x)", format!("{} {}", changed, imp), format!("{} {}", b2, mx));
                     }
                     // twice == once (values; the bool of the second call is not constrained)
@@ -393,6 +395,24 @@ impl Harness {
                 let t = lc.ids(&m.id);
                 let want = if *a == Act::Maximize { lc.lk.ref_maximize(t) } else { lc.lk.ref_minimize(t) };
                 let mut chosen = want;
+                let mut any_flag = false;
+                if *a == Act::Minimize {
+                    // where a UTS #35 fallback that C06 accepts is in reach of the rule's maximize
+                    // calls, follow the implementation if its outcome is one of the accepted ones
+                    let opts = lc.lk.ref_minimize_options(t);
+                    for o in &opts {
+                        let mut probe = m.id.clone();
+                        if let Some(t2) = o {
+                            lc.write(*t2, &mut probe);
+                        }
+                        if diff_langid(&obs_langid(&imp_after.id), &exp_langid(&probe)).is_none() {
+                            chosen = *o;
+                            break;
+                        }
+                    }
+                    // C08 does not fix the flag when the minimal form is the identifier itself
+                    any_flag = chosen == Some(t) || (chosen.is_none() && opts.contains(&Some(t)));
+                }
                 if *a == Act::Maximize && want.is_none() {
                     // C06 accepts a UTS #35 fallback where the dictionary finds nothing: follow the
                     // implementation if it took exactly that fallback
@@ -407,9 +427,9 @@ impl Harness {
                 match chosen {
                     Some(t2) => {
                         lc.write(t2, &mut m.id);
-                        Ret::Bool(true)
+                        if any_flag { Ret::AnyBool } else { Ret::Bool(true) }
                     }
-                    None => Ret::Bool(false),
+                    None => if any_flag { Ret::AnyBool } else { Ret::Bool(false) },
                 }
             }
             Act::SetAttr(x) => r(m.set_attribute(b(x))),
@@ -1039,7 +1059,7 @@ pub fn explore(ctx: &Ctx, h: &Harness, state_cap: usize, keep_values: usize) -> 
                                     Some((ns, ret)) => {
                                         e[0] += 1;
                                         match ret {
-                                            Ret::Unit | Ret::Bool(true) => e[1] += 1,
+                                            Ret::Unit | Ret::Bool(true) | Ret::AnyBool => e[1] += 1,
                                             Ret::Bool(false) => e[2] += 1,
                                             Ret::Err => e[3] += 1,
                                         }
